@@ -2,7 +2,7 @@
 Model driver for C10. Line protocol (see harness/props/C10.py): manifest text, names and paths
 are hex encoded ('-' = empty). One canonical result line per case, `bad-op` for anything that
 does not parse.
-  m.seg H | m.iter H P | m.ext H S R | m.fb o0,..,on s | m.esc N     (Go manifest package)
+  m.seg H | m.iter H P | m.ext H S R | m.fb o0,..,on s | m.esc N | m.fix P   (Go manifest package)
   a.fs H | a.pdh H | a.esc N                                           (collection fs, PDH)
   p.seg H | p.lr sizes s n | p.fb sizes s | p.esc N                    (Python range mapper)
 -/
@@ -81,6 +81,10 @@ def step (line : String) : String :=
       if offs.isEmpty || offs.any (· ≥ two64) || start ≥ two64 then "bad-op"
       else showFB "-1" "panic" (firstBlock offs start)
     | _, _ => "bad-op"
+  | ["m.fix", n] =>
+    match unhex? n with
+    | some nm => let sp := splitPath nm; s!"{hx (fixStreamName nm)} {hx sp.1} {hx sp.2}"
+    | none => "bad-op"
   | ["m.esc", n] =>
     match unhex? n with
     | some nm => escLine pkgEscape pkgUnescape nm
